@@ -132,6 +132,17 @@ def structures():
                                 R("b2", "generation", "g", ("e1", "a1", "t")))))
     out.append(("two-bundles-nary", (E("D", "pl"), ("bundle", "b1"), ("bundle", "b2"), AC("b1", "a1"), AG("b2", "g1"),
                                      R("b1", "association", None, ("a1", "g1", "pl")))))
+    out.append(("annotated-relations-in-three-scopes",
+                (E("D", "e1"), AC("D", "a1"), R("D", "generation", None, ("e1", "a1", "t")),
+                 R("D", "usage", None, ("a1", "e1", None), (("k", "v"),)),
+                 ("bundle", "b1"), E("b1", "e2"), AC("b1", "a2"), R("b1", "generation", None, ("e2", "a2", "t")),
+                 R("b1", "derivation", None, ("e2", "e3", "a2", None, None)),
+                 ("bundle", "b2"), E("b2", "e4"), AC("b2", "a4"), R("b2", "usage", "u", ("a4", "e4", "t"), (("k", 1),)),
+                 R("b2", "start", None, ("a4", "e4", "a5", None)))))
+    out.append(("time-only-relations",
+                (E("D", "e1"), AC("D", "a1"), R("D", "generation", None, ("e1", "a1", "t")), R("D", "usage", None, ("a1", "e1", "t")),
+                 R("D", "invalidation", None, ("e1", "a1", "t")), R("D", "start", None, ("a1", "e1", None, "t")),
+                 R("D", "end", None, ("a1", "e1", "a2", "t")))))
     return out
 
 
